@@ -4,3 +4,6 @@ import BqlVerif.Properties.C02
 import BqlVerif.Properties.C03
 import BqlVerif.Properties.C10
 import BqlVerif.Properties.C15
+import BqlVerif.Properties.C07
+import BqlVerif.Properties.C08
+import BqlVerif.Properties.C09
